@@ -122,9 +122,33 @@ def lineno_rule(ctx, rule_id, class_qual, floor):
         paths = [p for p in c.paths(follow_exc=False) if p[-1][0].kind == 'exit']
         only_nl = _only_newlines(nfa)
         ok = bool(paths)
+        from .common import resolve_locals
+
+        def no_newline_edge(node, label):
+            '''the edge (test, label) is only taken when the lexeme holds no newline: nothing is to be counted on that path'''
+            if node.kind != 'test' or label not in ('T', 'F'):
+                return False
+            e = resolve_locals(t.fn, node.ast if isinstance(node.ast, ast.expr) else getattr(node.ast, 'test', node.ast))
+            neg_ = False
+            while isinstance(e, ast.UnaryOp) and isinstance(e.op, ast.Not):
+                e, neg_ = e.operand, not neg_
+            has_nl = None       # truth of e  <=>  the lexeme contains a newline
+            cnt = "%s.value.count('\\n')" % tp
+            for pat_, pos_ in (("'\\n' in %s.value" % tp, True), ("'\\n' not in %s.value" % tp, False), (cnt, True), (cnt + ' > 0', True),
+                               (cnt + ' != 0', True), (cnt + ' >= 1', True), (cnt + ' == 0', False), (cnt + ' < 1', False),
+                               ('0 < ' + cnt, True), ('0 != ' + cnt, True), ('0 == ' + cnt, False)):
+                if pm.match(pat_, e) is not None:
+                    has_nl = pos_
+            if has_nl is None:
+                return False
+            if neg_:
+                has_nl = not has_nl
+            return (label == 'F') if has_nl else (label == 'T')
         for p in paths:
             good = False
-            for n, _ in p:
+            for n, lab_ in p:
+                if no_newline_edge(n, lab_):
+                    good = True
                 if n.kind != 'stmt':
                     continue
                 if _resolved_match(t.fn, '%s.lexer.lineno += _V' % tp, n.ast, ["%s.value.count('\\n')" % tp]):
